@@ -271,6 +271,8 @@ def from_repr_vcs(text, enum_name, repr_ty, variants):
                     env[mm.group(1)] = ("bool", t if k.group(1) == "Eq" else "(not %s)" % t)
                 elif re.match(r"Option::<.*>::None$", r):
                     env[mm.group(1)] = ("none",)
+                elif re.match(r"Option::<.*>::Some\(const %s(?:::<.*?>)?::(\w+)\)$" % re.escape(enum_name), r):
+                    env[mm.group(1)] = ("some", ("variant", re.match(r"Option::<.*>::Some\(const %s(?:::<.*?>)?::(\w+)\)$" % re.escape(enum_name), r).group(1)))
                 elif re.match(r"Option::<.*>::Some\((?:move|copy) (_\d+)\)$", r):
                     env[mm.group(1)] = ("some", env[re.match(r"Option::<.*>::Some\((?:move|copy) (_\d+)\)$", r).group(1)])
                 elif re.match(r"%s(?:::<.*?>)?::(\w+)(?:\(.*\)| \{.*\})?$" % re.escape(enum_name), r):
